@@ -32,6 +32,8 @@ deriving DecidableEq, Repr
 inductive Sch where
   | step (i : Nat)
   | close (i : Nat)
+  | stepFail (i : Nat)   -- the next step of connection `i`, and the injectable call in it FAILS
+                         -- (`PrepareConnection` / `CheckMappingQuota` / `DialTunnel`; `RegisterTunnel`)
 deriving DecidableEq, Repr
 
 /-- One event per schedule entry that does something, with the number of live tunnels the observer
@@ -44,6 +46,8 @@ inductive Ev where
   | fal (i n : Nat)   -- `Start()` failed (closed in the window)
   | cls (i n : Nat)   -- tunnel closed
   | ncl (i n : Nat)   -- `CloseTunnel`: no such tunnel
+  | dfl (i n : Nat)   -- slot taken, then prepare / quota / dial failed: slot given back, nothing registered
+  | rfl (i n : Nat)   -- `RegisterTunnel` failed: slot given back
 deriving DecidableEq, Repr
 
 structure Cfg where
@@ -74,6 +78,19 @@ def stepConn (once : Bool) (limit : Nat) (c : Cfg) (i : Nat) : Cfg :=
   | .run => c
   | .fin => c
 
+/-- The step of connection `i` in which its injectable call fails (error paths of `handleConnection`:
+each returns through the deferred clean-up, which gives the slot back because no tunnel owns it). -/
+def failConn (once : Bool) (limit : Nat) (c : Cfg) (i : Nat) : Cfg :=
+  match c.st i with
+  | .idle =>
+    if full limit c.cnt then
+      { c with st := upd c.st i .fin, trace := c.trace ++ [.ref i c.tunnels.length] }
+    else
+      -- acquireConnectionSlot; … fails; deferred releaseSlot(): count + 1 - 1
+      { c with st := upd c.st i .fin, trace := c.trace ++ [.dfl i c.tunnels.length] }
+  | .acq => { c with cnt := c.cnt - 1, st := upd c.st i .fin, trace := c.trace ++ [.rfl i c.tunnels.length] }
+  | _ => stepConn once limit c i
+
 /-- `Tunnel.Close` of connection `i`'s tunnel (unregister, `OnClosed` gives the slot back). -/
 def closeConn (c : Cfg) (i : Nat) : Cfg :=
   match c.st i with
@@ -86,6 +103,7 @@ def closeConn (c : Cfg) (i : Nat) : Cfg :=
 def step (once : Bool) (limit : Nat) (c : Cfg) : Sch → Cfg
   | .step i => stepConn once limit c i
   | .close i => closeConn c i
+  | .stepFail i => failConn once limit c i
 
 def run (once : Bool) (limit : Nat) (c : Cfg) (σ : List Sch) : Cfg := σ.foldl (step once limit) c
 
@@ -116,6 +134,8 @@ def specStep (limit : Nat) (s : SpecSt) : Ev → SpecSt
   | .cls i n =>
     ⟨s.acqd, s.live.erase i, s.good && s.live.contains i && n == (s.live.erase i).length && capOk limit n⟩
   | .ncl _ n => ⟨s.acqd, s.live, s.good && n == s.live.length && capOk limit n⟩
+  | .dfl _ n => ⟨s.acqd, s.live, s.good && n == s.live.length && capOk limit n⟩
+  | .rfl i n => ⟨s.acqd.erase i, s.live, s.good && s.acqd.contains i && n == s.live.length && capOk limit n⟩
 
 def replay (limit : Nat) (tr : List Ev) : SpecSt := tr.foldl (specStep limit) ⟨[], [], true⟩
 
